@@ -805,6 +805,10 @@ def site_patch_evaluate():
     qname = qs[0].targets[0].id
     uarr = qs[0].value.args[0]
     app = [_append_call(x, "vertices") for x in inner.body if _append_call(x, "vertices") is not None][0]
+    if isinstance(app, ast.Name):           # round 5: `p = de_casteljau(q, V[j]); out.vertices.append(p)` (temporary)
+        defs = [x.value for x in inner.body if isinstance(x, ast.Assign) and len(x.targets) == 1 and isinstance(x.targets[0], ast.Name)
+                and x.targets[0].id == app.id]
+        if len(defs) == 1: app = defs[0]
     if not (isinstance(app, ast.Call) and isinstance(app.func, ast.Name) and app.func.id == "de_casteljau" and len(app.args) == 2
             and isinstance(app.args[0], ast.Name) and app.args[0].id == qname and isinstance(app.args[1], ast.Subscript)):
         raise TranslateError("as_surface vertex is not de_casteljau(q, V[..])")
@@ -814,7 +818,9 @@ def site_patch_evaluate():
         raise TranslateError(f"as_surface parameter arrays: row parameter from linspace(0,1,{lin.get(un)}), column parameter from linspace(0,1,{lin.get(vn)})")
     su = int_expr(uarr.slice, {oi: "i", ii: "j"}); sv = int_expr(varr.slice, {oi: "i", ii: "j"})
     # uv attribute: uvs[k] = Vec(U[..], V[..])
-    uvsrc = [ast.unparse(x.value) for x in inner.body if isinstance(x, ast.Assign) and ast.unparse(x.targets[0]) == "uvs[k]"]
+    # round 5: the attribute handle and the counter may be renamed: any `<handle>[<counter>] = Vec(..)` store of the inner body
+    uvsrc = [ast.unparse(x.value) for x in inner.body if isinstance(x, ast.Assign) and isinstance(x.targets[0], ast.Subscript)
+             and isinstance(x.targets[0].value, ast.Name) and isinstance(x.targets[0].slice, ast.Name)]
     if uvsrc != [f"Vec({ast.unparse(uarr)}, {ast.unparse(varr)})"]:
         raise TranslateError(f"uv attribute is not Vec of the two parameters used for the vertex: {uvsrc}")
     out = NS
@@ -833,15 +839,18 @@ def site_patch_evaluate():
     return {"sha": sha, "rowRange": rng_, "rowIndex": ridx, "evaluate": f"dc (row {rowpar}) {colpar}", "surfVert": [su, sv]}
 
 
+SITES = [
+    ("bezier.py: BezierPatch.as_surface (loop bounds, quad index expressions)", site_as_surface, ["C19Surf"]),
+    ("bezier.py: BezierCurve.as_polyline (edge loop bound, edge pair)", site_as_polyline, ["C19Poly"]),
+    ("sampling.py: sample_ball (operation order as an expression tree)", site_sample_ball, ["C19Ball"]),
+    ("sampling.py: sample_AABB + aabb.py: span (points expression of both modes)", site_sample_aabb, ["C19Box"]),
+    ("sampling.py: sample_surface (probabilities, face/normal index, barycentric map, wrapping options)", site_sample_surface, ["C19Tri"]),
+    ("sampling.py: sample_polyline (guard, probabilities, edge index, interpolation, wrapping)", site_sample_polyline, ["C19Seg"]),
+    ("sampling.py: sample_sphere (operation order, wrapping)", site_sample_sphere, ["C19Sphere"]),
+    ("bezier.py: de_casteljau (range guard, loop bounds, update expression, result index)", site_de_casteljau, ["C19DC"]),
+    ("bezier.py: BezierPatch._evaluate_row / evaluate / as_surface vertex (row vs column ranges and parameters)", site_patch_evaluate, ["C19Patch"]),
+]
+
+
 def translate():
-    return [
-        T.site("bezier.py: BezierPatch.as_surface (loop bounds, quad index expressions)", site_as_surface),
-        T.site("bezier.py: BezierCurve.as_polyline (edge loop bound, edge pair)", site_as_polyline),
-        T.site("sampling.py: sample_ball (operation order as an expression tree)", site_sample_ball),
-        T.site("sampling.py: sample_AABB + aabb.py: span (points expression of both modes)", site_sample_aabb),
-        T.site("sampling.py: sample_surface (probabilities, face/normal index, barycentric map, wrapping options)", site_sample_surface),
-        T.site("sampling.py: sample_polyline (guard, probabilities, edge index, interpolation, wrapping)", site_sample_polyline),
-        T.site("sampling.py: sample_sphere (operation order, wrapping)", site_sample_sphere),
-        T.site("bezier.py: de_casteljau (range guard, loop bounds, update expression, result index)", site_de_casteljau),
-        T.site("bezier.py: BezierPatch._evaluate_row / evaluate / as_surface vertex (row vs column ranges and parameters)", site_patch_evaluate),
-    ]
+    return [T.site(n, f) for n, f, _ in SITES]
